@@ -8,6 +8,8 @@
 (*   ".."  "."  ""  parent, self, empty (doubled separator)                *)
 (*   "..x" ".x" "..."  ordinary components that merely start with a dot    *)
 (*   "x.."       ordinary component ending in dots                         *)
+(*   "x\..\..\e" ONE ordinary component containing backslashes (on this     *)
+(*               platform the backslash is not a separator)                *)
 (* TRUTH LAYER: lexical resolution (Clean) and Contained.                  *)
 (* ALGORITHM LAYER: the two acceptance rules of gopar.                     *)
 (*   PAR2 (file description packets, and Create's relative paths): not     *)
